@@ -18,6 +18,15 @@ std::string gen_name(Rng &r, unsigned maxLen) {
     return s;
 }
 
+// a name of exactly `len` characters that ends in `suffix` (keeps generated names unique)
+static std::string gen_exact_name(Rng &r, unsigned len, const std::string &suffix) {
+    static const char *A = "ABCDEFGHIJKLMNOPQRSTUVWXYZabcdefghijklmnopqrstuvwxyz0123456789_";
+    std::string s;
+    while (s.size() + suffix.size() < len) s += A[r.below(s.empty() ? 52 : 63)];
+    if (s.empty()) s = "n";
+    return s + suffix;
+}
+
 std::string gen_text(Rng &r, unsigned len) {
     std::string s;
     for (unsigned i = 0; i < len; ++i) {
@@ -34,15 +43,19 @@ static int64_t gen_int16(Rng &r) {
     return static_cast<int64_t>(r.below(65536)) - 32768;
 }
 
-static unsigned gen_desc_len(Rng &r, unsigned maxDesc) {
+// lengths: boundary-dense (powers of two and their neighbours, the one-byte limits), uniform over the whole range, or small
+static unsigned gen_len(Rng &r, unsigned maxLen) {
+    static const unsigned edge[] = {0, 1, 2, 3, 4, 7, 8, 9, 15, 16, 17, 31, 32, 33, 63, 64, 65, 100, 126, 127, 128, 129, 200, 253, 254, 255};
     unsigned k = static_cast<unsigned>(r.below(100));
     unsigned len;
-    if (k < 45) len = 0;
-    else if (k < 75) len = 1 + static_cast<unsigned>(r.below(30));
-    else if (k < 85) len = 100 + static_cast<unsigned>(r.below(28)); // up to 127
-    else if (k < 93) len = 128 + static_cast<unsigned>(r.below(127)); // 128..254
-    else len = 255;
-    return std::min(len, maxDesc);
+    if (k < 35) len = edge[r.below(sizeof(edge) / sizeof(edge[0]))];
+    else if (k < 60) len = static_cast<unsigned>(r.below(maxLen + 1));
+    else len = static_cast<unsigned>(r.below(24));
+    return len > maxLen ? maxLen : len;
+}
+static unsigned gen_desc_len(Rng &r, unsigned maxDesc) {
+    if (r.chance(2, 5)) return 0;
+    return gen_len(r, maxDesc);
 }
 
 // i: type, lock, preset, ndims(-1 default), dims.., nvals, vals.. ; s: group, name, desc, strvals..
@@ -88,7 +101,7 @@ Step make_param_step(Rng &r, const Profile &pf, const std::string &group, const 
     if (type == 3) {
         st.i.push_back(0);
         for (uint64_t k = 0; k < count; ++k) {
-            unsigned len = static_cast<unsigned>(r.below(r.chance(1, 20) ? 255 : 16));
+            unsigned len = r.chance(1, 5) ? gen_len(r, count > 8 ? 40 : 255) : static_cast<unsigned>(r.below(16));
             if (r.chance(1, 6)) len = 0;
             st.s.push_back(gen_text(r, len));
         }
@@ -129,8 +142,8 @@ void gen_history(Rng &r, const Profile &pf, Plan &plan) {
     if (P > 100 || C > 100) F = std::min(F, 8u); // keeps a run (a snapshot after every step) well under a second
 
     std::vector<std::string> pnames, cnames;
-    for (unsigned i = 0; i < P; ++i) pnames.push_back(gen_name(r, r.chance(1, 30) ? 100 : 10) + tos(i));
-    for (unsigned i = 0; i < C; ++i) cnames.push_back(gen_name(r, r.chance(1, 30) ? 100 : 10) + "c" + tos(i));
+    for (unsigned i = 0; i < P; ++i) pnames.push_back(gen_exact_name(r, r.chance(1, 8) && P < 20 ? std::max(2u, gen_len(r, 120)) : 2 + static_cast<unsigned>(r.below(10)), tos(i)));
+    for (unsigned i = 0; i < C; ++i) cnames.push_back(gen_exact_name(r, r.chance(1, 8) && C < 20 ? std::max(3u, gen_len(r, 120)) : 3 + static_cast<unsigned>(r.below(10)), "c" + tos(i)));
 
     std::vector<Step> setup;
     for (auto &n : pnames) { Step s; s.op = OP_DECL_POINT; s.s.push_back(n); setup.push_back(s); }
@@ -163,7 +176,7 @@ void gen_history(Rng &r, const Profile &pf, Plan &plan) {
     unsigned ng = static_cast<unsigned>(r.below(3));
     for (unsigned g = 0; g < ng; ++g) {
         std::string prefix = r.chance(1, 3) ? "grp_" : "GRP";
-        std::string body = gen_name(r, 8);
+        std::string body = gen_exact_name(r, r.chance(1, 6) ? std::max(2u, gen_len(r, 120)) : 2 + static_cast<unsigned>(r.below(8)), "");
         groups.push_back(prefix + body + tos(g));
     }
     unsigned ncp = static_cast<unsigned>(r.below(pf.n_custom_params + 1));
@@ -171,7 +184,7 @@ void gen_history(Rng &r, const Profile &pf, Plan &plan) {
     for (unsigned k = 0; k < ncp; ++k) {
         std::string g = groups[r.below(groups.size())];
         if (g == "POINT" || g == "ANALOG") { if (!r.chance(1, 3)) g = groups.size() > 3 ? groups[3 + r.below(groups.size() - 3)] : "FORCE_PLATFORM"; }
-        std::string n = "X" + gen_name(r, 10) + tos(k); // never a library-owned name
+        std::string n = "X" + gen_exact_name(r, r.chance(1, 6) ? std::max(2u, gen_len(r, 125)) : 2 + static_cast<unsigned>(r.below(10)), tos(k)); // never a library-owned name
         if (!customs.empty() && r.chance(1, 5)) { g = customs[r.below(customs.size())].first; n = customs[r.below(customs.size())].second; } // replace in place
         customs.push_back(std::make_pair(g, n));
         setup.push_back(make_param_step(r, pf, g, n, true));
